@@ -120,12 +120,16 @@ def convert (c : Cfg) (D : Nat) (E : Int) (x : SNum) : Res SNum :=
     | some rep =>
       -- `scale<-k>` of an elastic_integer<Dx> yields elastic_integer<Dx - k>: constructing it from
       -- the quotient is itself an overflow-checked conversion into `Dx - k` digits
-      if k ≥ x.digits then
-        -- elastic_integer with a non-positive digit count: its numeric_limits shift by a
+      if k > x.digits then
+        -- elastic_integer with a negative digit count: its numeric_limits shift by a
         -- negative count
         .ub .shiftCount
-      else do
-        let q ← repOp c .div (rep, x.value) (rep, 2^k)
+      else
+        -- the divisor `divisor_rep{1} << k` has its own type `elastic_integer<1 + k>::rep`
+        match Elastic.repTy (1 + k) narrowest with
+        | none => .ill "digits exceed the widest integer"
+        | some drep => do
+        let q ← repOp c .div (rep, x.value) (drep, 2^k)
         let mid ← narrowDigits c (x.digits - k) q.2
         let v ← narrowDigits c D mid
         pure ⟨D, E, v⟩
